@@ -121,13 +121,25 @@ def c07_order(threads):
     return sorted(threads, key=lambda t: rank[t[0]["op"]])
 
 
-def c07_realtime_ok(sched):
-    """Real-time runs need 'timer k' directly after 'dl k' and no reuse of a closed query's deadline."""
+def c07_realtime(sched):
+    """Real-time variant of a sequential schedule: 'dl k' directly followed by 'timer k' becomes 'expire k' (wait until
+    the query has really timed out); schedules in which they are apart cannot be run against the real clock."""
     ops = [st["o"] for st in sched]
-    for i, o in enumerate(ops):
-        if o["op"] == "dl" and not (i + 1 < len(ops) and ops[i + 1]["op"] == "timer" and ops[i + 1]["k"] == o["k"]):
-            return False
-    return True
+    out, i, n = [], 0, 0
+    while i < len(ops):
+        o = ops[i]
+        if o["op"] == "dl":
+            if i + 1 < len(ops) and ops[i + 1]["op"] == "timer" and ops[i + 1]["k"] == o["k"]:
+                out.append(dict(o, op="expire"))
+                i += 2
+                n += 1
+                continue
+            return None
+        if o["op"] == "timer":
+            return None
+        out.append(o)
+        i += 1
+    return {"pre": out, "threads": []} if n else None
 
 
 def c07_drive(ctx, binary, progs, tag, extra=()):
@@ -199,8 +211,7 @@ def run_c07(ctx, replay=None):
             p = c07_split(s, rng)
             if p:
                 conc_progs.append(p)
-        rt_progs = [p for p, s in zip(seq_progs, scheds) if c07_realtime_ok(s) and any(st["o"]["op"] == "dl" for st in s)]
-        rt_progs = rt_progs[:(150 if thorough else 25)]
+        rt_progs = [p for p in (c07_realtime(s) for s in scheds) if p][:(150 if thorough else 25)]
     runs = []   # (tag, binary, programs, extra args)
     if seq_progs:
         runs.append(("seq", vt, seq_progs, []))
@@ -208,33 +219,37 @@ def run_c07(ctx, replay=None):
         runs.append(("conc", vt, conc_progs, ["-maxpre", "2", "-budget", "400" if thorough else "60", "-random", "60" if thorough else "12"]))
     if rt_progs:
         runs.append(("rt", build_c07(ctx, realtime=True), rt_progs, ["-realtime"]))
-    viol, cov_tr, cov_lines, cov_div, cov_sched, seen = [], 0, 0, 0, 0, {}
-    summaries = {}
-    for tag, binary, progs, extra in runs:
-        tp, summ = c07_drive(ctx, binary, progs, tag, extra)
-        summaries[tag] = summ
-        rep = vlib.validate(ctx, "Trace_QueryReply", C07_TRACE_CFG, tp, timeout=3000)
-        cov_tr += rep.traces
-        cov_lines += rep.lines
-        cov_div += len(rep.diverged)
-        cov_sched += summ.get("schedules", 0)
-        if rep.diverged:
-            ctx.log("divergences (%s): %s" % (tag, rep.diverged[:5]))
-        pid = c07_pids(tp)
-        for (tid, line, clauses, tags) in rep.monitors:
-            key = tag + "|" + ",".join(sorted(clauses)) + "|" + ",".join(sorted(tags))
-            if seen.get(key, 0) >= 2:
-                continue
-            seen[key] = seen.get(key, 0) + 1
-            prog = progs[pid[tid]]
-            # second execution from scratch of the same program (same enumeration of schedules)
-            tp2, _ = c07_drive(ctx, binary, [prog], "re-%s-%d" % (tag, tid), extra)
-            rep2 = vlib.validate(ctx, "Trace_QueryReply", C07_TRACE_CFG, tp2)
-            again = sorted(set(c for m in rep2.monitors for c in m[2] if c in clauses))
-            if again:
-                viol.append({"clauses": again, "tags": sorted(tags), "schedule": prog, "mode": tag})
-            else:
-                ctx.log("report %s (%s, trace %d) not reproduced; ignored" % (clauses, tag, tid))
+    # every run writes its own trace (ids offset by run); one TLC validation over the concatenation
+    viol, seen, summaries, cov_sched = [], {}, {}, 0
+    allp = os.path.join(ctx.scratch, "c07-all-trace.ndjson")
+    with open(allp, "w") as out:
+        for i, (tag, binary, progs, extra) in enumerate(runs):
+            tp, summ = c07_drive(ctx, binary, progs, tag, extra + ["-idbase", str(i * 1000000)])
+            summaries[tag] = summ
+            cov_sched += summ.get("schedules", 0)
+            with open(tp) as f:
+                for line in f:
+                    out.write(line)
+    rep = vlib.validate(ctx, "Trace_QueryReply", C07_TRACE_CFG, allp, timeout=3000)
+    cov_tr, cov_lines, cov_div = rep.traces, rep.lines, len(rep.diverged)
+    if rep.diverged:
+        ctx.log("divergences: %s" % rep.diverged[:8])
+    pid = c07_pids(allp)
+    for (tid, line, clauses, tags) in rep.monitors:
+        tag, binary, progs, extra = runs[tid // 1000000]
+        key = tag + "|" + ",".join(sorted(clauses)) + "|" + ",".join(sorted(tags))
+        if seen.get(key, 0) >= 2:
+            continue
+        seen[key] = seen.get(key, 0) + 1
+        prog = progs[pid[tid]]
+        # second execution from scratch of the same program (same enumeration of schedules)
+        tp2, _ = c07_drive(ctx, binary, [prog], "re-%s-%d" % (tag, tid), extra)
+        rep2 = vlib.validate(ctx, "Trace_QueryReply", C07_TRACE_CFG, tp2)
+        again = sorted(set(c for m in rep2.monitors for c in m[2] if c in clauses))
+        if again:
+            viol.append({"clauses": again, "tags": sorted(tags), "schedule": prog, "mode": tag})
+        else:
+            ctx.log("report %s (%s, trace %d) not reproduced; ignored" % (clauses, tag, tid))
     new, known = vlib.classify(ctx.prop, viol)
     kinds = {}
     for p in seq_progs:
